@@ -6,7 +6,7 @@ for spec in "$@"; do
   for m in m1 m2 m3; do
     [ -d /tmp/seedout-$p/$m ] || continue
     out=/tmp/st-$p-$m.json
-    python3 tools/seedtest.py /tmp/seedout-$p/$m $p $extra > $out 2>&1
+    python3 tools/seedtest.py /tmp/seedout-$p/$m ${p:0:3} $extra > $out 2>&1
     python3 - "$out" "$p" "$m" <<'PY'
 import json,sys,subprocess
 out,p,m=sys.argv[1:4]
